@@ -165,6 +165,46 @@ def silent_peer_scenario(rng, passive, idle, keepalive):
     return adv, bad
 
 
+def chatty_peer_scenario(rng, passive, keepalive, period_ms):
+    ''' X established with keepalive negotiated to `keepalive` s against a peer which sends a KEEPALIVE every
+    `period_ms`, while X itself has nothing to send: whatever arrives, X must transmit a KEEPALIVE whenever
+    `keepalive` s have passed since its own last transmission. '''
+    from props import c17
+    adv = c17.Adversary(rng, passive, {'seg_init': 10, 'idle': 0, 'keepalive': keepalive})
+    adv.peer_keepalive = keepalive
+    x, sim = adv.x, adv.sim
+    bad = []
+    if not adv.to_state('established'):
+        return adv, bad
+    adv.drain()
+    last_tx = ts.LOOP.now
+    sent_before = len(x.sock.sent)
+    next_peer = ts.LOOP.now + period_ms
+    horizon = ts.LOOP.now + 6 * keepalive * 1000
+    while ts.LOOP.now < horizon and not x.closed():
+        dls = [s.deadline for s in x.sources('timeout')]
+        nxt = min(dls + [next_peer])
+        sim.advance(max(0, nxt - ts.LOOP.now))
+        for t in sim.due_timers(x):
+            sim.timer(x, t)
+            if x.obs[-1].get('escaped'):
+                bad.append(('C14:timer-escape-%s-%s' % (t, x.obs[-1]['escaped']), '%s timer raised %s under inbound traffic' % (t, x.obs[-1]['escaped'])))
+                return adv, bad
+        adv.drain()
+        if len(x.sock.sent) > sent_before:
+            sent_before = len(x.sock.sent)
+            last_tx = ts.LOOP.now
+        if ts.LOOP.now >= next_peer:
+            adv.send({'k': 'keepalive'})
+            adv.drain()
+            next_peer = ts.LOOP.now + period_ms
+        if ts.LOOP.now - last_tx > keepalive * 1000 and not x.closed():
+            bad.append(('C14:keepalive-not-sent', 'nothing transmitted for %d ms (> negotiated keepalive %d s) while the peer sends a KEEPALIVE every %d ms'
+                        % (ts.LOOP.now - last_tx, keepalive, period_ms)))
+            break
+    return adv, bad
+
+
 def run(chk):
     chk.prove(MODULE)
     rng, tier = chk.rng, chk.tier
@@ -200,6 +240,15 @@ def run(chk):
                 for (sig, what) in bad:
                     chk.violation(sig, what, {'passive': passive, 'idle': idle, 'keepalive': ka, 'x_cfg': adv.x.model_cfg(), 'x_events': adv.x.events})
                 advs.append((adv, 'silent peer passive=%s idle=%s ka=%s' % (passive, idle, ka)))
+    # chatty peer: inbound traffic must not postpone X's own KEEPALIVE
+    for passive in (False, True):
+        for (ka, period) in ((2, 900), (2, 1999), (5, 4000), (3, 10000)):
+            adv, bad = chatty_peer_scenario(rng, passive, ka, period)
+            chk.case({'chatty_peer': True, 'passive': passive, 'keepalive': ka, 'period_ms': period})
+            chk.count('chatty-peer')
+            for (sig, what) in bad:
+                chk.violation(sig, what, {'passive': passive, 'keepalive': ka, 'period_ms': period, 'x_cfg': adv.x.model_cfg(), 'x_events': adv.x.events})
+            advs.append((adv, 'chatty peer passive=%s ka=%s period=%s' % (passive, ka, period)))
     reqs = [ts.model_requests(a.x) for (a, _l) in advs]
     try:
         outs = chk.driver(reqs)
